@@ -133,12 +133,12 @@ func (d *DeviceRemote) FeatureByAddress(address *model.FeatureAddressType) api.F
 
 // Get the feature for a given entity, feature type and feature role
 func (r *DeviceRemote) FeatureByEntityTypeAndRole(entity api.EntityRemoteInterface, featureType model.FeatureTypeType, role model.RoleType) api.FeatureRemoteInterface {
+	r.entitiesMutex.Lock()
+	defer r.entitiesMutex.Unlock()
+
 	if len(r.entities) < 1 {
 		return nil
 	}
-
-	r.entitiesMutex.Lock()
-	defer r.entitiesMutex.Unlock()
 
 	for _, e := range r.entities {
 		if entity != e {
